@@ -182,11 +182,112 @@ func c20Vectors(r *RNG, p *big.Int, m int, unreduced bool) (xs, ys []*big.Int, k
 	return
 }
 
+// c20SweepModuli: moduli of every bit length at and around the machine-word
+// boundaries (31..33, 63..65, 127..129, 191..193, 255, 256), small ones, and
+// random ones (random bit lengths, random 64-bit odd numbers and primes).
+// The property quantifies over every modulus of at most 256 bits, so an
+// implementation that special-cases word-sized moduli must be met here.
+func c20SweepModuli(r *RNG, thorough bool) []c20Mod {
+	sub := func(n uint, d int64) *big.Int { return new(big.Int).Sub(c20Pow2(n), big.NewInt(d)) }
+	add := func(n uint, d int64) *big.Int { return new(big.Int).Add(c20Pow2(n), big.NewInt(d)) }
+	m := []c20Mod{
+		{"2", big.NewInt(2)}, {"3", big.NewInt(3)}, {"251", big.NewInt(251)}, {"65537", big.NewInt(65537)},
+		{"2^31-1", sub(31, 1)},
+		{"2^32-5", sub(32, 5)}, {"2^32-1", sub(32, 1)}, {"2^31", c20Pow2(31)},
+		{"2^32+15", add(32, 15)}, {"2^32", c20Pow2(32)},
+		{"2^63-25", sub(63, 25)}, {"2^63-1", sub(63, 1)},
+		{"2^64-59", sub(64, 59)}, {"2^64-2^32+1", new(big.Int).Add(new(big.Int).Sub(c20Pow2(64), c20Pow2(32)), big.NewInt(1))},
+		{"2^63+9", add(63, 9)}, {"2^63", c20Pow2(63)}, {"2^64-1", sub(64, 1)},
+		{"2^64+13", add(64, 13)}, {"2^64", c20Pow2(64)},
+		{"2^127-1", sub(127, 1)},
+		{"2^128-159", sub(128, 159)}, {"2^127", c20Pow2(127)},
+		{"2^128+51", add(128, 51)}, {"2^128", c20Pow2(128)},
+		{"2^191-19", sub(191, 19)},
+		{"p192", c20Hex("fffffffffffffffffffffffffffffffeffffffffffffffff")}, {"2^192-1", sub(192, 1)},
+		{"2^192+133", add(192, 133)},
+		{"2^255-19", sub(255, 19)},
+		{"2^256-189", sub(256, 189)},
+		{"p256", c20Hex("ffffffff00000001000000000000000000000000ffffffffffffffffffffffff")},
+		{"p256-order", c20Hex("ffffffff00000000ffffffffffffffffbce6faada7179e84f3b9cac2fc632551")},
+		{"2^256-1", sub(256, 1)}, {"2^255", c20Pow2(255)},
+	}
+	n64, nprime, nbits := 3, 2, 6
+	if thorough {
+		n64, nprime, nbits = 40, 20, 120
+	}
+	for i := 0; i < n64; i++ { // random 64-bit odd numbers
+		v := new(big.Int).SetUint64(r.U64() | 1<<63 | 1)
+		m = append(m, c20Mod{"rand64-odd", v})
+	}
+	for i := 0; i < nprime; i++ { // random 64-bit primes
+		v := new(big.Int).SetUint64(r.U64() | 1<<63 | 1)
+		for !v.ProbablyPrime(16) || v.BitLen() != 64 {
+			v.Add(v, big.NewInt(2))
+			if v.BitLen() != 64 {
+				v.SetUint64(r.U64() | 1<<63 | 1)
+			}
+		}
+		m = append(m, c20Mod{"rand64-prime", v})
+	}
+	for i := 0; i < nbits; i++ { // random bit lengths 2..256
+		k := uint(2 + r.Intn(255))
+		v := c20Rand(r, c20Pow2(k-1))
+		v.Add(v, c20Pow2(k-1))
+		m = append(m, c20Mod{fmt.Sprintf("rand-%dbit", k), v})
+	}
+	return m
+}
+
+// sweep element kinds
+var c20SweepKindNames = []string{"0", "1", "2", "p-1", "p-2", "(p-1)/2", "2^(k-1)", "rand"}
+
+func c20SweepElem(r *RNG, p *big.Int, kind int) *big.Int {
+	var v *big.Int
+	switch kind {
+	case 0:
+		v = big.NewInt(0)
+	case 1:
+		v = big.NewInt(1)
+	case 2:
+		v = big.NewInt(2)
+	case 3:
+		v = new(big.Int).Sub(p, big.NewInt(1))
+	case 4:
+		v = new(big.Int).Sub(p, big.NewInt(2))
+	case 5:
+		v = new(big.Int).Sub(p, big.NewInt(1))
+		v.Rsh(v, 1)
+	case 6:
+		v = c20Pow2(uint(p.BitLen() - 1))
+	default:
+		return c20Rand(r, p)
+	}
+	// always a field element
+	return v.Mod(v, p)
+}
+
+// c20SweepVectors: x, y over all 64 combinations of the 8 sweep kinds,
+// cycling through the positions from a random phase.
+func c20SweepVectors(r *RNG, p *big.Int, m int) (xs, ys []*big.Int, kinds []string) {
+	xs = make([]*big.Int, m)
+	ys = make([]*big.Int, m)
+	kinds = make([]string, m)
+	phase := r.Intn(64)
+	for i := 0; i < m; i++ {
+		k := (i + phase) % 64
+		kx, ky := k%8, k/8
+		xs[i] = c20SweepElem(r, p, kx)
+		ys[i] = c20SweepElem(r, p, ky)
+		kinds[i] = c20SweepKindNames[kx] + "*" + c20SweepKindNames[ky]
+	}
+	return
+}
+
 // ---------------------------------------------------------------------------
 // VOLE session
 
 type c20Op struct {
-	class  string // field | unreduced | probe:<what>
+	class  string // field | unreduced | sweep | probe:<what>
 	p      *big.Int
 	xs, ys []*big.Int
 	kinds  []string
@@ -505,7 +606,11 @@ func c20CheckOp(c *Ctx, op *c20Op, aesMode bool, allSlices bool) {
 		}
 		return r
 	}
-	c.Hist(fmt.Sprintf("vole:%s:p=%s:m=%s", op.class, c20ModName(p), c20LenBucket(m)))
+	if op.class == "sweep" {
+		c.Hist(fmt.Sprintf("vole:sweep:modulus-bits=%03d", p.BitLen()))
+	} else {
+		c.Hist(fmt.Sprintf("vole:%s:p=%s:m=%s", op.class, c20ModName(p), c20LenBucket(m)))
+	}
 
 	if op.sErr != nil || op.rErr != nil {
 		code := 1
@@ -544,11 +649,19 @@ func c20CheckOp(c *Ctx, op *c20Op, aesMode bool, allSlices bool) {
 			op.xs[i].Sign() != 0 && op.ys[i].Sign() != 0 && absP.Cmp(big.NewInt(1)) > 0)
 		if !probe {
 			if lhs.Cmp(rhs) != 0 {
-				c.Fail(fmt.Sprintf("c20:vole:%s:relation:p=%s:%s", op.class, c20ModName(p), op.kinds[i]),
+				key := fmt.Sprintf("c20:vole:%s:relation:p=%s:%s", op.class, c20ModName(p), op.kinds[i])
+				if op.class == "sweep" {
+					key = fmt.Sprintf("c20:vole:modulus-bits=%d:share-relation", p.BitLen())
+				}
+				c.Fail(key,
 					fmt.Sprintf("(u-r) mod p = %x but x*y mod p = %x at index %d of %d", lhs, rhs, i, m), rep(i, "relation"))
 			}
 			if op.rs[i].Sign() < 0 || op.rs[i].Cmp(absP) >= 0 || op.us[i].Sign() < 0 || op.us[i].Cmp(absP) >= 0 {
-				c.Fail(fmt.Sprintf("c20:vole:%s:range:p=%s", op.class, c20ModName(p)),
+				key := fmt.Sprintf("c20:vole:%s:range:p=%s", op.class, c20ModName(p))
+				if op.class == "sweep" {
+					key = fmt.Sprintf("c20:vole:modulus-bits=%d:share-range", p.BitLen())
+				}
+				c.Fail(key,
 					fmt.Sprintf("share outside [0,p) at index %d", i), rep(i, "range"))
 			}
 		}
@@ -1016,7 +1129,11 @@ func c20MkOps(r *RNG, p *big.Int, lens []int, class string) []*c20Op {
 	var ops []*c20Op
 	for _, m := range lens {
 		op := &c20Op{class: class, p: p}
-		op.xs, op.ys, op.kinds = c20Vectors(r, p, m, class == "unreduced")
+		if class == "sweep" {
+			op.xs, op.ys, op.kinds = c20SweepVectors(r, p, m)
+		} else {
+			op.xs, op.ys, op.kinds = c20Vectors(r, p, m, class == "unreduced")
+		}
 		ops = append(ops, op)
 	}
 	return ops
@@ -1059,8 +1176,11 @@ func runC20(c *Ctx) error {
 		s := c20RunSession(r, ops, []int{0, 64, 4096}[r.Intn(3)], sessTimeout)
 		c20Finish(c, s, false, thorough || i == 0, "big:"+md.name)
 	}
-	// (c) unreduced operands: any integer x, y in [0, 2^256)
-	for i, md := range mods {
+	// (c) unreduced operands: any integer x, y in [0, 2^256); also for 64-bit moduli
+	umods := append(append([]c20Mod{}, mods...),
+		c20Mod{"2^64-59", new(big.Int).Sub(c20Pow2(64), big.NewInt(59))},
+		c20Mod{"2^63+9", new(big.Int).Add(c20Pow2(63), big.NewInt(9))})
+	for i, md := range umods {
 		if md.p.BitLen() > 256 {
 			continue
 		}
@@ -1074,6 +1194,36 @@ func runC20(c *Ctx) error {
 		ops := c20MkOps(r, md.p, lens, "unreduced")
 		s := c20RunSession(r, ops, 0, sessTimeout)
 		c20Finish(c, s, true, thorough, "unreduced:"+md.name)
+	}
+	// (e) modulus sweep: every bit length at and around the machine-word
+	// boundaries, boundary elements; several moduli per session
+	{
+		r := c.rng.Fork()
+		sweep := c20SweepModuli(r, thorough)
+		longFor := map[string]bool{"2^64-59": true, "2^64-2^32+1": true, "2^32-5": true, "p256-order": true, "2^63+9": true}
+		var ops []*c20Op
+		flush := func(what string) {
+			if len(ops) == 0 {
+				return
+			}
+			s := c20RunSession(r, ops, []int{0, 64, 4096}[r.Intn(3)], sessTimeout)
+			c20Finish(c, s, true, true, what)
+			ops = nil
+		}
+		for i, md := range sweep {
+			lens := []int{1, 2, 64}
+			if thorough {
+				lens = []int{1, 2, 64, 255, 256, 257}
+			} else if longFor[md.name] {
+				lens = []int{1, 2, 64, 255, 256, 257}
+			}
+			ops = append(ops, c20MkOps(r, md.p, lens, "sweep")...)
+			if (i+1)%6 == 0 {
+				flush(fmt.Sprintf("sweep:%d", i))
+			}
+		}
+		flush("sweep:last")
+		c.Note("modulus sweep: %d moduli", len(sweep))
 	}
 	// (d) probes outside the domain of the property (correspondence only):
 	// negative y, y >= 2^256, p = 0, negative p, p > 2^256 with a large share
